@@ -712,8 +712,10 @@ func (vc *VC) execDynCall(st *State, call *ssa.CallCommon, instr ssa.Instruction
 		}
 	}
 	if c == nil {
-		// element of a slice of function values etc.: by named element type only
-		vc.unsupported(instr, "missing-contract: dynamic call through %s (tried %s)", call.Value.Name(), key)
+		// no contract for this function value: the call must be unreachable
+		vc.oblige(st, "false", "missing-contract:dynamic-call", "safety", site, vc.props(), "a call through a function value without contract is unreachable", "")
+		st.dead = true
+		return Val{}
 	}
 	ci := &calleeInfo{key: key, contract: c, sig: sig}
 	for i, a := range argVals {
@@ -845,14 +847,244 @@ func (vc *VC) closureGhost(st *State, mc *ssa.MakeClosure, ref Term) {
 		}
 	}
 	ups := vc.contract.Closures[ord]
-	if len(ups) == 0 {
-		return
-	}
 	for _, u := range ups {
 		env := vc.fnEnvNames(st)
 		env.vars["closure"] = TV{T: ref, S: goSType(mc.Type())}
 		vc.ghostAssign(st, env, u.Target, u.Value)
 	}
+	if cc := vc.lookupContract(funcKey(fn)); cc != nil {
+		vc.closureCreationChecks(st, mc, fn, cc, ref, binds, ups)
+	}
+}
+
+// closureCreationChecks: (1) preconditions a closure states over its captured variables hold where it is created;
+// (2) when the closure is handed out as an interface callback, its contract refines the interface-level contract
+// (behavioural subtyping), checked over two arbitrary heaps.
+func (vc *VC) closureCreationChecks(st *State, mc *ssa.MakeClosure, fn *ssa.Function, cc *Contract, ref Term, binds []Term, ups []GhostUpdate) {
+	site := vc.siteOf(mc)
+	mkCI := func() *calleeInfo {
+		ci := &calleeInfo{key: funcKey(fn), contract: cc, sig: fn.Signature, fn: fn, closure: mc, closureBind: binds}
+		for _, p := range fn.Params {
+			s := sortOf(p.Type())
+			ci.args = append(ci.args, TV{T: vc.d.freshConst("cbarg_"+p.Name(), s), S: goSType(p.Type())})
+		}
+		return ci
+	}
+	for _, r := range cc.Requires {
+		if !r.AtCreation {
+			continue
+		}
+		env := vc.calleeEnv(mkCI(), st.heap, st.heap)
+		g := vc.trClause(env, r)
+		vc.oblige(st, g, r.Label, "requires-at-creation", site, clauseProps(r, vc.props()), r.Src, funcKey(fn))
+	}
+	if cc.Callback == "" {
+		return
+	}
+	ic := vc.lookupContract(cc.Callback)
+	if ic == nil {
+		panic(specError{"callback: no interface contract " + cc.Callback})
+	}
+	vc.cbCount++
+	h1 := &Heap{cur: map[string]Term{}, epoch: fmt.Sprintf("cbpre%d", vc.cbCount)}
+	h2 := &Heap{cur: map[string]Term{}, epoch: fmt.Sprintf("cbpost%d", vc.cbCount)}
+	// effectively-final captured variables
+	for _, b := range mc.Bindings {
+		if al, ok := b.(*ssa.Alloc); ok {
+			stores := 0
+			for _, r := range *al.Referrers() {
+				if s, ok := r.(*ssa.Store); ok && s.Addr == al {
+					stores++
+				}
+			}
+			if stores > 1 {
+				vc.unsupported(mc, "captured variable %s of callback closure is assigned more than once", al.Comment)
+			}
+		}
+	}
+	sub := st.clone()
+	sub.assume = append([]Term{}, st.assume...)
+	asType := (&Env{vc: vc, pkg: cc.Pkg, vars: map[string]TV{}, heap: st.heap, old: st.heap}).resolveType(cc.CallbackAs)
+	self := TV{T: vc.toAny(ref, asType.Go), S: goSType(mustIfaceOf(vc, cc.Callback))}
+	// facts that hold in both arbitrary heaps: ghost attributes given at creation, captured variables unchanged
+	for _, h := range []*Heap{h1, h2} {
+		for _, u := range ups {
+			cenv := vc.fnEnvNames(st)
+			cenv.vars["closure"] = TV{T: ref, S: goSType(mc.Type())}
+			val := cenv.tr(u.Value)
+			henv := *cenv
+			henv.heap = h
+			henv.old = h
+			tgt := henv.tr(u.Target)
+			sub.assume = append(sub.assume, eq(tgt.T, val.T))
+		}
+		for i, fv := range fn.FreeVars {
+			et, _ := derefType(fv.Type())
+			if isPlainStruct(et) {
+				continue
+			}
+			s := sortOf(et)
+			sub.assume = append(sub.assume, eq(app("select", vc.hget(h, cellArr(s), arrSort(s)), binds[i]), app("select", vc.hget(st.heap, cellArr(s), arrSort(s)), binds[i])))
+		}
+		for _, se := range cc.Stable {
+			now := vc.calleeEnv(mkCI(), st.heap, st.heap).tr(se)
+			then := vc.calleeEnv(mkCI(), h, h).tr(se)
+			sub.assume = append(sub.assume, eq(then.T, now.T))
+			vc.usedTrusted["A-STABLE-WIRING: "+exprString(se)+" is the same when the callback runs as when the closure was created"] = true
+		}
+	}
+	sub.assume = append(sub.assume, app(">=", vc.hget(h2, "top", "Int"), vc.hget(h1, "top", "Int")), app(">=", vc.hget(h1, "top", "Int"), vc.top(st)))
+	ienv := func(heap, old *Heap) *Env {
+		e := &Env{vc: vc, pkg: ic.Pkg, vars: map[string]TV{ic.RecvName: self}, heap: heap, old: old}
+		return e
+	}
+	cenv := func(heap, old *Heap) *Env { return vc.calleeEnv(mkCI(), heap, old) }
+	// results
+	res := fn.Signature.Results()
+	bindRes := func(e *Env) {
+		for i := 0; i < res.Len(); i++ {
+			tv := TV{T: vc.d.declConst(fmt.Sprintf("cbres%d_%d", vc.cbCount, i), sortOf(res.At(i).Type())), S: goSType(res.At(i).Type())}
+			e.vars[fmt.Sprintf("result%d", i)] = tv
+			if i == 0 {
+				e.vars["result"] = tv
+			}
+		}
+	}
+	// A: interface precondition (+ creation-time facts) implies the closure's precondition
+	pre := sub.clone()
+	ie1 := ienv(h1, h1)
+	for _, r := range ic.Requires {
+		pre.assume = append(pre.assume, vc.trClauseFor(pre, ie1, r))
+	}
+	ce1 := cenv(h1, h1)
+	for _, r := range cc.Requires {
+		g := vc.trClauseFor(pre, ce1, r)
+		if r.AtCreation {
+			// holds at creation; assumed stable until the callback runs (A-STABLE-WIRING)
+			pre.assume = append(pre.assume, g)
+			vc.usedTrusted["A-STABLE-WIRING: "+r.Label+" of "+shortFuncKey(funcKey(fn))+" holds at closure creation and is assumed unchanged when the callback runs"] = true
+			continue
+		}
+		vc.oblige(pre, g, "callback-pre:"+r.Label, "subtype", site, clauseProps(r, vc.props()), "interface precondition implies closure precondition: "+r.Src, funcKey(fn))
+		pre.assume = append(pre.assume, g)
+	}
+	// B: closure postcondition (+ its frame) implies the interface postcondition
+	post := pre.clone()
+	ce2 := cenv(h2, h1)
+	bindRes(ce2)
+	ie2 := ienv(h2, h1)
+	bindRes(ie2)
+	for _, en := range cc.Ensures {
+		post.assume = append(post.assume, vc.trClauseFor(post, ce2, en))
+	}
+	var goals []Term
+	var gsrc []*Clause
+	for _, en := range ic.Ensures {
+		goals = append(goals, vc.trClauseFor(post, ie2, en))
+		gsrc = append(gsrc, en)
+	}
+	// frame: what the closure does not assign is the same in both heaps
+	whole := map[string]bool{}
+	locs := map[string][]Term{}
+	pe := *ce1
+	for _, t := range cc.Assigns {
+		for _, lv := range pe.lvals(t.Expr) {
+			if t.Any || lv.Idx == "" {
+				whole[lv.Arr] = true
+			} else {
+				locs[lv.Arr] = append(locs[lv.Arr], lv.Idx)
+			}
+		}
+	}
+	iwhole := map[string]bool{}
+	ilocs := map[string][]Term{}
+	ipe := *ie1
+	for _, t := range ic.Assigns {
+		for _, lv := range ipe.lvals(t.Expr) {
+			if t.Any || lv.Idx == "" {
+				iwhole[lv.Arr] = true
+			} else {
+				ilocs[lv.Arr] = append(ilocs[lv.Arr], lv.Idx)
+			}
+		}
+	}
+	names := map[string]bool{}
+	for n := range h1.cur {
+		names[n] = true
+	}
+	for n := range h2.cur {
+		names[n] = true
+	}
+	var sorted []string
+	for n := range names {
+		sorted = append(sorted, n)
+	}
+	sort.Strings(sorted)
+	for _, n := range sorted {
+		if n == "top" || whole[n] || cc.AssignAll {
+			continue
+		}
+		s := vc.arrays[n]
+		a1 := vc.hget(h1, n, s)
+		a2 := vc.hget(h2, n, s)
+		if ls := locs[n]; len(ls) > 0 {
+			ks := arraySorts(s)
+			var conds []Term
+			for _, l := range ls {
+				conds = append(conds, not(eq("fx", l)))
+			}
+			post.assume = append(post.assume, fmt.Sprintf("(forall ((fx %s)) (! (=> %s (= (select %s fx) (select %s fx))) :pattern ((select %s fx))))", ks[0], and(conds...), a2, a1, a2))
+		} else {
+			post.assume = append(post.assume, eq(a2, a1))
+		}
+	}
+	for i, g := range goals {
+		vc.oblige(post, g, "callback-post:"+gsrc[i].Label, "subtype", site, clauseProps(gsrc[i], vc.props()), "closure postcondition implies interface postcondition: "+gsrc[i].Src, funcKey(fn))
+	}
+	// frame subtyping: everything the closure assigns is permitted by the interface-level frame
+	if !ic.AssignAll {
+		for n := range whole {
+			if !iwhole[n] {
+				vc.oblige(post, "false", "callback-frame:"+n, "subtype", site, vc.props(), "interface-level frame permits the closure to assign "+n, funcKey(fn))
+			}
+		}
+		for n, ls := range locs {
+			if iwhole[n] {
+				continue
+			}
+			for _, l := range ls {
+				var alts []Term
+				for _, il := range ilocs[n] {
+					alts = append(alts, eq(l, il))
+				}
+				vc.oblige(pre, or(alts...), "callback-frame:"+n, "subtype", site, vc.props(), "interface-level frame permits the closure to assign "+n, funcKey(fn))
+			}
+		}
+	}
+}
+
+func mustIfaceOf(vc *VC, methodKey string) types.Type {
+	// "(pkgpath.Iface).Method" -> the interface type
+	end := strings.Index(methodKey, ")")
+	key := methodKey[1:end]
+	i := strings.LastIndex(key, ".")
+	p := vc.w.AllPkgs[key[:i]]
+	if p == nil {
+		panic(specError{"callback: unknown package in " + methodKey})
+	}
+	o := p.Types.Scope().Lookup(key[i+1:])
+	if o == nil {
+		panic(specError{"callback: unknown interface in " + methodKey})
+	}
+	return o.Type()
+}
+
+// trClauseFor translates a clause while directing heap facts to the given state.
+func (vc *VC) trClauseFor(st *State, env *Env, c *Clause) Term {
+	saved := vc.curState
+	vc.curState = st
+	defer func() { vc.curState = saved }()
+	return vc.trClause(env, c)
 }
 
 // fnEnvNames: function environment that can also see local variables by name (latest definition on this path).
@@ -981,6 +1213,8 @@ func (vc *VC) siteHooks(st *State, key string, instr ssa.Instruction, before boo
 		g := vc.trClause(env, a.Clause)
 		if !a.Clause.Free {
 			vc.oblige(st, g, a.Clause.Label, "assert", vc.siteOf(instr), clauseProps(a.Clause, vc.props()), a.Clause.Src, "")
+		} else {
+			vc.usedTrusted[fmt.Sprintf("assumed at call site [%s] in %s: %s", a.Clause.Label, shortFuncKey(vc.key), a.Clause.Src)] = true
 		}
 		st.assume = append(st.assume, g)
 	}
@@ -1078,6 +1312,7 @@ func (vc *VC) modOfCall(st *State, call ssa.CallInstruction, inLoop func(ssa.Val
 	// Evaluate targets with arguments that are defined outside the loop; anything else makes the base varying.
 	ci := &calleeInfo{key: key, contract: c, sig: cc.Signature(), fn: fn}
 	allOutside := true
+	_ = allOutside
 	args := cc.Args
 	dummy := func(v ssa.Value) TV {
 		if !inLoop(v) {
@@ -1144,7 +1379,7 @@ func (vc *VC) modOfCall(st *State, call ssa.CallInstruction, inLoop func(ssa.Val
 			add(lv.Arr, lv.Sort, "", false, scalar)
 		} else {
 			// the index term may depend on in-loop values even when arguments are outside (conservative check)
-			add(lv.Arr, lv.Sort, lv.Idx, allOutside && !strings.Contains(lv.Idx, "unknown_"), false)
+			add(lv.Arr, lv.Sort, lv.Idx, !strings.Contains(lv.Idx, "unknown_"), false)
 		}
 	}
 }
